@@ -233,6 +233,48 @@ PROPS.update({
     },
 })
 
+U5 = "u5_lib"
+A_U5 = "U5 restates the failure detector as an opaque type with ghost views (live set, dead set, number of heartbeat reports per member); the three stubs used (report_heartbeat, get_or_create_sampling_window) state what U4 proves / assumes on the real detector"
+A_LRU = "A-lru: lru::LruCache::{peek, pop, push} behave as a map (view); ClusterState::node_state_mut_or_init (BTreeMap Entry API + LruCache::pop) has an assumed contract exercised by the bounded drivers c12_timeline / c18_catchup"
+A_ELIDE = "R11: in the C16 view of process_message the three accepting paths are replaced by an arbitrary effect (havoc); no claim is made about them there"
+PROPS["C05"]["verus"].append({"unit": U5, "fns": ["Chitchat::report_heartbeat", "Chitchat::self_chitchat_id"]})
+PROPS["C05"]["assumptions"] += [A_U5, A_LRU]
+PROPS["C05"]["level_note"] = "Premise not machine-checked here: every copy's max version and watermark are <= the owner's max version (C03's frontier clause; one incarnation per ChitchatId is the property's own assumption). Chitchat::report_heartbeat is under contract in U5 (a digest entry carrying the local id changes nothing at all); the end-to-end statement over whole messages is additionally exercised by the bounded driver c05_owner."
+PROPS["C11"]["verus"].append({"unit": U5, "fns": ["Chitchat::report_heartbeat"]})
+PROPS["C11"]["assumptions"] += [A_U5, A_LRU]
+PROPS["C11"]["level_note"] = "Chitchat::report_heartbeat is under contract in U5: the detector's report count for a member moves by exactly one iff the digest heartbeat is strictly greater than a non-zero stored one, and never for anybody else. NOT decided: the steady-heartbeat accuracy sentence (floating-point inequality, same reason as C10); it is exercised by the bounded driver c11_steady on concrete arrival patterns."
+PROPS["C12"]["verus"].append({"unit": U5, "fns": ["Chitchat::report_heartbeat", "ClusterState::last_heartbeat_if_deleted"]})
+PROPS["C12"]["assumptions"] += [A_U5, A_LRU]
+PROPS["C12"]["level_text"] += " The re-creation guard is proved on Chitchat::report_heartbeat (U5): a removed-and-remembered member is re-created only by a heartbeat strictly above the remembered one, a (re-)created member stores its first heartbeat without any evidence being reported, and a digest heartbeat never changes the live/dead classification."
+PROPS["C18"] = {
+    "level": "proof",
+    "verus": [{"unit": U5, "fns": ["Chitchat::reset_node_state_if_update", "NodeState::set_max_version", "NodeState::set_last_gc_version",
+                                   "NodeState::remove_key_value_internal", "ClusterState::last_heartbeat_if_deleted", "ClusterState::node_state_mut"]}],
+    "native": [N_C18],
+    "kani": [],
+    "assumptions": [A_STD, A_KEY, A_SVV, A_TERM, A_U5, A_LRU, A_TEST_CFG,
+                    "the iterator-adapter statement building the previous key set is replaced by a stub returning the copy's key set (R11); HashSet iteration goes through an R13 adapter"],
+    "level_text": "Proved on the extracted real function for every existing copy, every supplied iterator (generic impl Iterator, loop invariant), every max version and watermark: the assert! at the end is unreachable (no panic); a member remembered as garbage collected is not re-created; other members, the failure detector's live/dead sets and evidence counts are untouched (never live by itself); an existing copy's (GC watermark, max version) never decreases - it is left as it is when already up to date or when the fetched state is older than its watermark, and is otherwise strictly raised with the watermark max(old, supplied).",
+    "level_note": "'replaces its key set with the supplied one, keeping the newer version of a key present in both' is not in the Verus contract (it needs the prophetic content of a generic iterator); it is checked by the bounded driver c18_catchup over the property's list of copies x supplied states. The callee contracts of set_versioned_value and node_state_mut_or_init are assumed (Entry API) and bounded-checked.",
+    "technique": "Verus contract + loop invariants on the extracted generic function; bounded native check of the key-set clause",
+    "explanation": "",
+    "design_ref": "DESIGN.md §7 C18",
+}
+PROPS["C16"] = {
+    "level": "proof",
+    "verus": [{"unit": U5, "fns": ["Chitchat::process_message", "Chitchat::update_self_heartbeat", "Chitchat::cluster_id", "Chitchat::self_node_state",
+                                   "NodeState::inc_heartbeat", "Heartbeat::inc"]}],
+    "native": [{"test": "verif_c16_isolation", "pairs": ["Chitchat::process_message"]}],
+    "kani": [],
+    "assumptions": [A_STD, A_KEY, A_LRU, A_ELIDE, A_TEST_CFG, "the local node's state exists and its heartbeat counter is below u64::MAX (chitchat_wf; Heartbeat::inc panics on overflow by design)"],
+    "level_text": "Proved on the extracted process_message (accepting paths elided, R11): a SYN whose cluster id differs from the local one - as sequences of characters, so empty, prefix-of-each-other and case variants are simply different - is answered with BadCluster before the digest is looked at, and the whole Chitchat value afterwards equals the entry value except for the local heartbeat counter (+1): membership, every other copy, the removed-member memory, the failure detector are untouched. A received BadCluster yields no reply and has the same frame.",
+    "level_note": "The two-cluster sentence follows because only SYN carries a cluster id, SYN-ACK is emitted only by the accepting path and ACK only on SYN-ACK; that argument is an explanation, not an obligation. It is exercised by the bounded driver c16_isolation (two clusters with cross-configured seeds, all small message schedules with loss and duplication).",
+    "technique": "Verus contract with a frame postcondition on the extracted function, non-rejecting arms elided",
+    "explanation": "",
+    "design_ref": "DESIGN.md §7 C16",
+}
+
+
 def K(h, what, pairs=(), grade="K", tiers=("quick", "thorough")):
     return {"harness": h, "what": what, "pairs": list(pairs), "grade": grade, "tiers": list(tiers)}
 
@@ -299,5 +341,4 @@ NOT_APPLICABLE = {
     "C01": "liveness over unbounded multi-node histories under fairness; no contract on one call expresses 'within a bounded number of handshakes' (its per-handshake progress sentence is decided under C14: lemma_agree + lemma_admitted_strictly_advances)",
     "C13": "the whole body of update_nodes_liveness is iterator/closure chains over HashMap/BTreeMap feeding a tokio watch channel: Verus cannot take it and Kani cannot build the collections, so no deductive obligation can be generated; a bounded run alone would be testing, a different family",
     "C19": "async select loop, channels, lock ordering and shutdown liveness: concurrency and whole-history behaviour that neither Verus nor Kani models",
-    "C16": "not yet claimed: lib.rs unit (U5) under construction",
 }
